@@ -9,7 +9,8 @@
    terminal's input descriptor (cell 0, slot 0; for the harness's mock terminal the descriptor
    is -1, so that slot 0 looks free to evloop_io and is reused by the first application watch,
    while the internal watch keeps index 0), without notification flags; it is freed by
-   destroy_watchlist.
+   destroy_watchlist.  (The application has no handle on it; the model lets scripts cancel it all
+   the same -- identity 0 -- which only widens what io_safe covers.)
 
    j_*: the specification -- identities only, a finite table, total.
    hi_*: the heap level -- nodes at addresses (LoopChain's cells, crd = checked read, cfree), the
@@ -124,7 +125,7 @@ Definition j_checkb (ops : list iop) (o : list obs) : bool :=
 
 Record his := mkHi { i_h : hcs; i_sl : list slot }.
 Definition his_built : his :=
-  mkHi (mkHc [CLive term_watch] [0] None [] [] O 0 []) [mkSl TERM_FD false 0].
+  mkHi (mkHc [CLive term_watch] [0] None [0] [] O 0 []) [mkSl TERM_FD false 0].
 
 Definition set_h (h : his) (v : hcs) : his := mkHi v (i_sl h).
 
